@@ -257,6 +257,17 @@ func registerSym() {
 		return nil
 	})
 	regSym("Yield", func(fr *frame, args []value) value { fr.i.sched.yield("storage-callback"); return nil })
+	regSym("RealReference", func(fr *frame, args []value) value {
+		// interpret the real reference engine instead of the counting model
+		for _, n := range []string{
+			"github.com/prometheus/prometheus/promql.NewEngine",
+			"(*github.com/prometheus/prometheus/promql.Engine).NewInstantQuery",
+			"(*github.com/prometheus/prometheus/promql.Engine).NewRangeQuery",
+		} {
+			fr.i.disabledExt[n] = true
+		}
+		return nil
+	})
 	regSym("CheckLeaks", func(fr *frame, args []value) value { fr.i.path.leakCheck = true; return nil })
 	regSym("PoolNondet", func(fr *frame, args []value) value { fr.i.path.poolNondet = true; return nil })
 	regSym("SetGOMAXPROCS", func(fr *frame, args []value) value { fr.i.path.gomaxprocs = args[0].(int); return nil })
